@@ -1137,7 +1137,37 @@ def rxn_roles(ctx, shape, k=None):
     pool = rxn_parts(ctx)
     total = sum(shape)
     mols = [(pool[(k * 7 + i * 3) % len(pool)] if k is not None and i < total - 1 else rng.choice(pool)).copy() for i in range(total)]
+    # the same compound more than once in one reaction, described differently (2 A >> ..., a spectator on both sides, the same
+    # compound as reactant and reagent): another numbering, another atom order, other coordinates.  Every molecule of a
+    # reaction must come back as IT was packed; nothing may be shared between equal compounds (round 5, C10-r5-1).
+    if total >= 2 and (k is None or k % 3 != 0):
+        src = rng.randrange(total - 1)
+        mols[total - 1] = redescribe(rng, mols[src], mode=(k or rng.randrange(3)) % 3)
     return [mols[:shape[0]], mols[shape[0]:shape[0] + shape[1]], mols[shape[0] + shape[1]:]]
+
+
+def redescribe(rng, m, mode):
+    """the same compound as another object: mode 0 a plain copy with moved coordinates, 1 renumbered by a shift,
+    2 renumbered by a random permutation of its own numbers (atom order kept) — coordinates moved by an exactly representable step"""
+    nums = list(m._atoms)
+    if mode == 1:
+        mp = {n: n + 1 + (max(nums) if nums else 0) for n in nums}
+    elif mode == 2:
+        sh = nums[:]
+        rng.shuffle(sh)
+        mp = dict(zip(nums, sh))
+    else:
+        mp = {}
+    m2 = m.copy()
+    if mp:
+        m2.remap(mp)
+    for _, a in m2.atoms():
+        try:
+            a.x = a.x + 2.0
+            a.y = a.y - 1.0
+        except Exception:
+            break
+    return m2
 
 
 def rxn_json(roles):
